@@ -19,6 +19,9 @@ import (
 // without error (this keeps the probe honest: its programs are rejected for the deep difference
 // and for nothing else). The second result describes the variant.
 func NearMiss(intn func(int) int, control bool) (string, string) {
+	if intn(3) == 0 {
+		return nearMissRepeated(intn, control)
+	}
 	m := []string{"", "lin "}[intn(2)]
 	lbls := [][2]string{{"more", "done"}, {"s", "z"}, {"a", "b"}}[intn(3)]
 	more, done := lbls[0], lbls[1]
@@ -148,4 +151,69 @@ func connect(w func(string, ...any), m string, conn int, from, to, eat string) {
 		w("prc[pa] : %s%s = mkV()", m, to)
 		w("prc[main] : %s1 = e <- new %s(pa); wait e; close self", m, eat)
 	}
+}
+
+// nearMissRepeated: a type name A used twice inside one type (A * A), compared with a structural
+// type whose two components have the same outermost constructor as A's definition but differ
+// inside the second one. An equality that remembers "A was already compared with something of
+// this shape" accepts it. Producer and consumer are written against the two spellings; the run
+// uses the second component.
+func nearMissRepeated(intn func(int) int, control bool) (string, string) {
+	m := []string{"", "lin "}[intn(2)]
+	k := intn(4)
+	flip := intn(2) == 1
+	conn := intn(4)
+	type row struct{ s1, s2, mk1, mk2, use1, use2, aux string }
+	rows := []row{
+		{"1 -* 1", "+{l : 1} -* 1",
+			"<u, z> <- recv self; wait u; close self",
+			"<u, z> <- recv self; case u (l<w> => wait w; close self)",
+			"u <- new mkU(); r : " + m + "1 <- new send y<u, self>; wait r; close self",
+			"u <- new mkL(); r : " + m + "1 <- new send y<u, self>; wait r; close self",
+			"let mkL() : " + m + "+{l : 1} = u <- new mkU(); self.l<u>"},
+		{"&{l : 1}", "&{l : 1 * 1}",
+			"case self (l<z> => close self)",
+			"case self (l<z> => a <- new mkU(); b <- new mkU(); send self<a, b>)",
+			"r : " + m + "1 <- new y.l<self>; wait r; close self",
+			"r : " + m + "(1 * 1) <- new y.l<self>; <a, b> <- recv r; wait a; wait b; close self", ""},
+		{"+{l : 1}", "+{l : 1 * 1}",
+			"u <- new mkU(); self.l<u>",
+			"a <- new mkU(); b <- new mkU(); p : " + m + "(1 * 1) <- new send self<a, b>; self.l<p>",
+			"case y (l<w> => wait w; close self)",
+			"case y (l<w> => <a, b> <- recv w; wait a; wait b; close self)", ""},
+		{"1 * 1", "(1 * 1) * 1",
+			"a <- new mkU(); b <- new mkU(); send self<a, b>",
+			"a1 <- new mkU(); a2 <- new mkU(); a : " + m + "(1 * 1) <- new send self<a1, a2>; b <- new mkU(); send self<a, b>",
+			"<a, b> <- recv y; wait a; wait b; close self",
+			"<a, b> <- recv y; <a1, a2> <- recv a; wait a1; wait a2; wait b; close self", ""},
+	}
+	r := rows[k]
+	if control {
+		r.s2, r.mk2, r.use2 = r.s1, r.mk1, r.use1
+	}
+	var sb strings.Builder
+	w := func(f string, a ...any) { fmt.Fprintf(&sb, f+"\n", a...) }
+	w("let mkU() : %s1 = close self", m)
+	if r.aux != "" {
+		w("%s", r.aux)
+	}
+	w("type A = %s%s", m, r.s1)
+	w("type P1 = %sA * A", m)
+	w("type P2 = %s(%s) * (%s)", m, r.s1, r.s2)
+	w("let mk1() : %s(%s) = %s", m, r.s1, r.mk1)
+	w("let mk2() : %s(%s) = %s", m, r.s2, r.mk2)
+	w("let use1(y : %s(%s)) : %s1 = print p; %s", m, r.s1, m, r.use1)
+	w("let use2(y : %s(%s)) : %s1 = print q; %s", m, r.s2, m, r.use2)
+	if !flip {
+		// the value really is S1 * S2; the consumer believes A * A
+		w("let mkV() : %sP2 = x <- new mk1(); y <- new mk2(); send self<x, y>", m)
+		w("let eat(v : %sP1) : %s1 = <x, y> <- recv v; e1 <- new use1(x); wait e1; e2 <- new use1(y); wait e2; close self", m, m)
+		connect(w, m, conn, "P2", "P1", "eat")
+	} else {
+		// the value really is A * A; the consumer believes S1 * S2
+		w("let mkV() : %sP1 = x <- new mk1(); y <- new mk1(); send self<x, y>", m)
+		w("let eat(v : %sP2) : %s1 = <x, y> <- recv v; e1 <- new use1(x); wait e1; e2 <- new use2(y); wait e2; close self", m, m)
+		connect(w, m, conn, "P1", "P2", "eat")
+	}
+	return sb.String(), fmt.Sprintf("repeated-name row=%d flip=%v conn=%d mode=%q control=%v", k, flip, conn, m, control)
 }
